@@ -127,6 +127,58 @@ fn drive(p: &Params, levels: &[i64], last_script: &[Ans], seed: u64) -> Result<R
     })
 }
 
+/// Unusual but legal call patterns: the agents' `update` is not called exactly once per step. Pattern 1: twice in a
+/// row (no step in between) in round `at`; pattern 2: not at all in round `at` (the market still moves and steps).
+/// The documented recurrence is per `update` call: M = m(1-decay) + decay(P - p) with p the mid-price seen by the
+/// previous call. Returns the mid-price seen and the orders submitted by every update call.
+fn drive_pattern(p: &Params, levels: &[i64], pattern: u8, at: usize, seed: u64) -> Result<RunOut, String> {
+    util::subject(|| {
+        let c = p.cfg();
+        let mut w = World::new(p.multi, &c, StartBook::Empty, 500);
+        let mut out = RunOut { mids: vec![], flows: vec![] };
+        for (r, &m) in levels.iter().enumerate() {
+            let orders = w.orders();
+            let mut any = false;
+            for o in &orders {
+                if o.status == ACTIVE {
+                    w.cancel_foreign(o.id);
+                    any = true;
+                }
+            }
+            if any {
+                let mut r0 = ScriptRng::new(vec![], 11);
+                w.step(&mut r0);
+            }
+            let (b, a) = if m % 2 == 0 { (m / 2 - 1, m / 2 + 1) } else { ((m - 3) / 2, (m + 3) / 2) };
+            w.place_foreign(true, 1_000_000, Some((b as u32) * p.tick));
+            w.place_foreign(false, 1_000_000, Some((a as u32) * p.tick));
+            let mut r1 = ScriptRng::new(vec![], 12);
+            w.step(&mut r1);
+            let calls = if r == at { if pattern == 1 { 2 } else { 0 } } else { 1 };
+            for k in 0..calls {
+                out.mids.push(true_mid(&w));
+                let before = w.orders().len();
+                let mut rng = ScriptRng::new(vec![], seed.wrapping_add(r as u64 * 7 + k as u64));
+                rng.budget = 100_000;
+                w.update(&mut rng);
+                let after = w.orders();
+                let mut flow: Flow = after[before..]
+                    .iter()
+                    .map(|o| {
+                        let market = (o.bid && o.price == MAXP) || (!o.bid && o.price == 0);
+                        (o.trader, market, o.bid, o.price, o.vol)
+                    })
+                    .collect();
+                flow.sort();
+                out.flows.push(flow);
+            }
+            let mut r2 = ScriptRng::new(vec![], 13);
+            w.step(&mut r2);
+        }
+        out
+    })
+}
+
 /// mid-price recomputed from the order list alone (not through the book's own views)
 fn true_mid(w: &World) -> f64 {
     let o = w.orders();
@@ -368,6 +420,16 @@ pub fn c17(tier: &str) -> i32 {
     }
     // signs of the parameters: the documented probability is |demand*tanh(scale*M)|/n and the side
     // follows the sign of M alone, for every demand/scale setting - also negative ones
+    // (decay beyond 1 and below 0 too: the recurrence is documented for every setting)
+    for multi in [false, true] {
+        for n in 1..=2u16 {
+            for decay in [1.5, -0.5] {
+                for ratio in [0.0, 1.0] {
+                    params.push(Params { centre: CENTRE, big_moves: false, multi, tick: 1, n, decay, scale: 0.5, demand: 100.0, ratio, mu: 0.0, mut_keep: false, sigma: 0.0 });
+                }
+            }
+        }
+    }
     for multi in [false, true] {
         for n in 1..=2u16 {
             for decay in [1.0, 0.5] {
@@ -600,6 +662,52 @@ pub fn c17(tier: &str) -> i32 {
         });
         requote_runs = rq.load(Ordering::Relaxed);
     }
+    // call patterns: update twice in a row, or not at all, in one round
+    let mut pattern_runs = 0u64;
+    {
+        let moves = [-4i64, -2, 0, 2, 4];
+        let mut paths: Vec<Vec<i64>> = vec![vec![0]];
+        for _ in 0..3 {
+            let mut next = Vec::new();
+            for pth in &paths {
+                for mv in moves {
+                    let mut q = pth.clone();
+                    q.push(pth[pth.len() - 1] + mv);
+                    next.push(q);
+                }
+            }
+            paths = next;
+        }
+        for multi in [false, true] {
+            for decay in [1.0, 0.5] {
+                for n in [1u16, 2] {
+                    let p = Params { centre: CENTRE, big_moves: false, multi, tick: 1, n, decay, scale: 0.5, demand: 100.0, ratio: 0.0, mu: 0.0, mut_keep: false, sigma: 0.0 };
+                    for pth in &paths {
+                        let levels: Vec<i64> = pth.iter().map(|o| 2 * p.centre + o).collect();
+                        for (pattern, at) in [(1u8, 1usize), (1, 2), (1, 3), (2, 1), (2, 2)] {
+                            pattern_runs += 1;
+                            execs.fetch_add(1, Ordering::Relaxed);
+                            let replay = json!({"engine": "c17", "scenario": if pattern == 1 { "update called twice in a row in one round" } else { "update not called in one round" }, "round": at, "params": format!("{:?}", p), "mid_levels_in_half_ticks": levels});
+                            match drive_pattern(&p, &levels, pattern, at, 3) {
+                                Ok(a) => {
+                                    let ms = momentum_series(&p, &a.mids);
+                                    for r in 0..a.mids.len() {
+                                        if let Err((c, d)) = judge_flow(&p, r, ms[r], &a.flows[r], None) {
+                                            fails.lock().unwrap().entry(format!("momentum/{}", c)).or_insert((format!("{} (update call #{} of the run, mid-prices seen by the calls {:?}): {}", if pattern == 1 { "update called twice in a row" } else { "a round without an update" }, r, a.mids, d), replay.clone()));
+                                        }
+                                    }
+                                }
+                                Err(m) => {
+                                    fails.lock().unwrap().entry(format!("momentum/abort/{}", util::panic_sig(&m))).or_insert((m, replay));
+                                }
+                            }
+                        }
+                    }
+                }
+            }
+        }
+    }
+    out.set("call_patterns", json!({"runs": pattern_runs, "rule": "update called twice in a row (no step in between) or not at all in one round of every path of three moves over -2..+2 ticks, decay 1 and 0.5, saturated demand: direction and count follow the documented recurrence applied per update call"}));
     out.set("requoted_within_one_step", json!({"runs": requote_runs, "rule": "two layers of harness quotes per side, re-quoted as one shuffled batch of four (cancel, cancel, place, place) under each of the 24 processing orders; paths over moves of -2..+2 ticks; M recomputed from mid-prices derived from the order list alone"}));
     out.set("long_trends", json!({"runs": long_runs, "rounds_each": if t { 80 } else { 40 }, "rule": "steadily rising / falling mid-price at saturated demand with order ratio 1, the agents' limit orders rest 400 ticks behind the touch and accumulate: one market and one limit order per trader in every round, mirrored flow on the mirrored path"}));
     let e = execs.load(Ordering::Relaxed);
